@@ -11,9 +11,12 @@ Tier == IF "VERIF_TIER" \in DOMAIN IOEnv THEN IOEnv.VERIF_TIER ELSE "quick"
 
 Pow2 == {8, 16, 32, 64, 128}
 AllPairs == Pow2 \X Pow2
-\* sizes for which the recorder gets a template
+\* The recorder gets a template for every size (position payloads); nrand = number of
+\* random payloads (and of byte-lane sets) it adds for that size
 QuickPairs == { <<8, 8>>, <<16, 8>>, <<8, 16>>, <<32, 16>>, <<16, 64>>, <<64, 32>>, <<128, 8>>, <<8, 128>>, <<128, 128>> }
-TexPairs == IF Tier = "quick" THEN QuickPairs ELSE AllPairs
+TexPairs == AllPairs
+NRand(p) == IF Tier = "quick" THEN (IF p \in QuickPairs THEN 1 ELSE 0) ELSE 5
+NRandPal == IF Tier = "quick" THEN 1 ELSE 4
 PalSides == (1..16) \cup {17, 31, 32, 33, 63, 64}
 QuickPalSides == {1, 2, 3, 4, 5, 7, 8, 9, 12, 16, 17, 33, 64}
 TplSides == IF Tier = "quick" THEN QuickPalSides ELSE PalSides
@@ -123,13 +126,13 @@ GenCases ==
 Emit ==
   CASE c[1] = "root" -> TRUE
     [] c[1] = "T-ctpk" ->
-         PrintT("T " \o ToJson([kind |-> "ctpk", fmt |-> c[2], w |-> c[3], h |-> c[4],
+         PrintT("T " \o ToJson([kind |-> "ctpk", fmt |-> c[2], w |-> c[3], h |-> c[4], nrand |-> NRand(<<c[3], c[4]>>),
                                head |-> CtpkCanonHead(TName, c[2], c[3], c[4])]))
     [] c[1] = "T-tpl" ->
          \* single-image TPL with zeroed data; the recorder overwrites palette and image data
          LET w == c[2]  h == c[3]  n == 1 + ((w * 7 + h * 13) % 256)
              v == << TplTex(w, h, Fill(CI8PayloadSize(w, h), 0), Fill(2 * n, 0)) >>
-         IN PrintT("T " \o ToJson([kind |-> "tpl", w |-> w, h |-> h, npal |-> n, file |-> TplCanon(v),
+         IN PrintT("T " \o ToJson([kind |-> "tpl", w |-> w, h |-> h, npal |-> n, nrand |-> NRandPal, file |-> TplCanon(v),
                                   pal_at |-> TplPalExtents(v, TplCanonP)[1][1],
                                   img_at |-> TplExtents(v, TplCanonP)[1][1],
                                   img_len |-> CI8PayloadSize(w, h)]))
